@@ -93,6 +93,7 @@ func StdEnv() []EnvVal {
 		{"fdtnp", &dtpb.DateTime{ValueUs: us(d), Timezone: "Z"}, "elem-prim"},
 		{"ftnp", &dtpb.Time{ValueUs: 3723000000}, "elem-prim"},
 		{"finst", &dtpb.Instant{ValueUs: us(d), Timezone: "Z", Precision: dtpb.Instant_MILLISECOND}, "elem-prim"},
+		{"finp", &dtpb.Instant{ValueUs: us(d) + 45678000, Timezone: "+05:30"}, "elem-prim"},
 		{"ftime", &dtpb.Time{ValueUs: 3723000000, Precision: dtpb.Time_SECOND}, "elem-prim"},
 		{"fqty", &dtpb.Quantity{Value: &dtpb.Decimal{Value: "5.5"}, Code: &dtpb.Code{Value: "mg"}, Unit: &dtpb.String{Value: "mg"}}, "elem-prim"},
 		{"fcode", &dtpb.Code{Value: "final"}, "elem-prim"},
@@ -149,8 +150,8 @@ var (
 	DateSrcs = []string{"@2020", "@2020-02", "@2020-02-29", "@2021-02-28", "@2020-12-31", "@0001-01-01", "@9999-12-31", "@2020-01", "%fdate", "(@9999-12-31 + 1 day)", "(@0001-01-01 - 2 years)"}
 	DTSrcs   = []string{"@2020T", "@2020-02T", "@2020-02-29T", "@2020-02-29T10", "@2020-02-29T10:30", "@2020-02-29T10:30:45", "@2020-02-29T10:30:45.123",
 		"@2020-02-29T10:30:45Z", "@2020-02-29T10:30:45+05:30", "@2020-02-29T10:30:45.123-11:00", "@2020-02-29T10Z", "@2020-02-29T10:30+05:30",
-		"@0001-01-01T00:00:00Z", "@9999-12-31T23:59:59.999Z", "@2020-03-01T00:00:00+14:00", "%fdt", "%fdtday", "%finst", "(@9999-12-31T23:59:59Z + 2 seconds)", "(@0001-01-01T00:00:00Z - 1 day)", "%fdtnp", "%fdnp"}
-	TimeSrcs = []string{"@T10", "@T10:30", "@T10:30:45", "@T10:30:45.123", "@T10:30:45.5", "@T00:00", "@T23:59:59.999", "@T23:30", "@T08", "%ftime"}
+		"@0001-01-01T00:00:00Z", "@9999-12-31T23:59:59.999Z", "@2020-03-01T00:00:00+14:00", "%fdt", "%fdtday", "%finst", "(@9999-12-31T23:59:59Z + 2 seconds)", "(@0001-01-01T00:00:00Z - 1 day)", "%fdtnp", "%fdnp", "%finp"}
+	TimeSrcs = []string{"@T10", "@T10:30", "@T10:30:45", "@T10:30:45.123", "@T10:30:45.5", "@T00:00", "@T23:59:59.999", "@T23:30", "@T08", "%ftime", "(@T01:00 - 2 hours)", "(@T23:00 + 2 hours)", "(@T10:00 + 8784 hours)", "(@T00:00:00.000 - 1 millisecond)"}
 	QtySrcs  = []string{"0 'mg'", "1 'mg'", "1.5 'kg'", "5 'mg'", "1 year", "2 years", "1 month", "13 months", "1 week", "3 weeks", "1 day", "365 days", "1 hour", "25 hours", "90 minutes", "1 second", "1.5 seconds",
 		"1 millisecond", "1000 milliseconds", "1 'wk'", "1 'a'", "1 'mo'", "1 'd'", "1 'h'", "1 'min'", "1 's'", "1 'ms'", "1 '1'", "5.5 'mg'", "-(1 day)", "-(1 'mg')", "2147483648 days", "99999999999 years", "%fqty"}
 	EmptySrcs   = []string{"{}", "%emptyc", "%nilc", "Patient.photo", "Patient.name.suffix"}
